@@ -2,6 +2,7 @@ package eng
 
 import (
 	"fmt"
+	"sort"
 	"go/constant"
 	"go/token"
 	"go/types"
@@ -520,10 +521,30 @@ func (x *exec) enterLoop(li *loopInfo, s *State) *State {
 	hs = x.havoc(s, m, consts, tag)
 	li.snap = s
 	// 3. assume invariant and automatic facts
-	for cell := range m.cells {
-		if cell.Name == "rangeindex" {
-			if v, ok := hs.cells[cell].(*Term); ok {
-				hs.assume(c, c.Le(c.IntC(-1), v))
+	if cell, lim := x.rangeIndexOf(li, hs); cell != nil {
+		if v, ok := hs.cells[cell].(*Term); ok {
+			hs.assume(c, c.Le(c.IntC(-1), v))
+			if lim != nil {
+				hs.assume(c, c.Lt(v, lim))
+			}
+		}
+	}
+	// automatic frame invariant: havocked heap keys changed only where the
+	// function's modifies clauses allow
+	li.frameKeys = nil
+	if x.topExec().contract != nil {
+		for key := range m.whole {
+			li.frameKeys = append(li.frameKeys, key)
+		}
+		for key := range m.heap {
+			if !m.whole[key] {
+				li.frameKeys = append(li.frameKeys, key)
+			}
+		}
+		sort.Strings(li.frameKeys)
+		for _, key := range li.frameKeys {
+			if g := x.frameGoal(key, hs); g != nil {
+				hs.assume(c, g)
 			}
 		}
 	}
@@ -548,6 +569,38 @@ func (x *exec) enterLoop(li *loopInfo, s *State) *State {
 	return hs
 }
 
+// rangeIndexOf returns the hidden index cell of a range-over-slice loop and
+// the (loop-invariant) length it is compared with.
+func (x *exec) rangeIndexOf(li *loopInfo, s *State) (*Cell, *Term) {
+	hb := x.fn.Blocks[li.head]
+	if len(hb.Instrs) == 0 {
+		return nil, nil
+	}
+	ld, ok := hb.Instrs[0].(*ssa.UnOp)
+	if !ok {
+		return nil, nil
+	}
+	a, ok := ld.X.(*ssa.Alloc)
+	if !ok || a.Comment != "rangeindex" {
+		return nil, nil
+	}
+	cell := x.cellOf[a]
+	var lim *Term
+	if iff, ok := hb.Instrs[len(hb.Instrs)-1].(*ssa.If); ok {
+		if cmp, ok := iff.Cond.(*ssa.BinOp); ok && cmp.Op == token.LSS {
+			if v, ok := x.regs[cmp.Y].(*Term); ok && v.Sort == Int {
+				lim = v
+			}
+			if cv, ok := cmp.Y.(*ssa.Const); ok {
+				if t, ok := x.e.constVal(cv.Value, cv.Type()).(*Term); ok {
+					lim = t
+				}
+			}
+		}
+	}
+	return cell, lim
+}
+
 func loopLabel(li *loopInfo, cl *Clause) string {
 	if cl.Label != "" {
 		return fmt.Sprintf("loop%d.%s", li.ordinal, cl.Label)
@@ -556,7 +609,15 @@ func loopLabel(li *loopInfo, cl *Clause) string {
 }
 
 func (x *exec) backEdge(li *loopInfo, s *State) {
-	if li == nil || li.spec == nil || x.e.dry > 0 {
+	if li == nil || x.e.dry > 0 {
+		return
+	}
+	for _, key := range li.frameKeys {
+		if g := x.frameGoal(key, s); g != nil {
+			x.oblige("inv-pres", fmt.Sprintf("loop%d.frame.%s", li.ordinal, shortHeapKey(key)), li.pos, s, g, "automatic frame invariant ("+key+")")
+		}
+	}
+	if li.spec == nil {
 		return
 	}
 	c := x.e.C
